@@ -958,7 +958,11 @@ func (ex *Exec) assertsAt(st *State, anchor string, pos token.Pos) {
 
 // typeInvsFor: type invariants declared (in the function's package) for type t
 func (ex *Exec) typeInvsFor(t types.Type) []*Contract {
-	pc := ex.prog.PC[ex.pkgPath()]
+	return ex.typeInvsIn(ex.pkgPath(), t)
+}
+
+func (ex *Exec) typeInvsIn(pkg string, t types.Type) []*Contract {
+	pc := ex.prog.PC[pkg]
 	if pc == nil {
 		return nil
 	}
